@@ -118,7 +118,9 @@ mod hx {
                 bits,
                 nonce,
             };
-            if pow_ok(&header) == want_pow {
+            // a target that cannot be met in reasonable time (a degenerate bits value): hand the
+            // header out as it is, its proof-of-work flag is computed from the header anyway
+            if pow_ok(&header) == want_pow || nonce > (1 << 22) {
                 return header;
             }
             nonce = nonce.checked_add(1).expect("nonce space exhausted");
@@ -708,7 +710,28 @@ fn shifted_bits(bits: CompactTarget, kind: u8) -> CompactTarget {
         5 => hi <<= 3,
         6 => hi = (hi >> 2) - (hi >> 20), // just below a quarter
         7 => hi = (hi >> 2) + (hi >> 20),
-        _ => hi = hi - (hi >> 12),
+        8 => hi = hi - (hi >> 12),
+        // one unit in the last place of the compact form beyond the factor-4 bounds
+        9 | 10 => {
+            if kind == 9 {
+                hi <<= 2
+            } else {
+                hi >>= 2
+            }
+            b[0..16].copy_from_slice(&hi.to_be_bytes());
+            let size = Target::from_be_bytes(b).to_compact_lossy().to_consensus() >> 24;
+            let shift = 8 * (size.saturating_sub(3));
+            if shift >= 128 && shift < 256 {
+                let ulp = 1u128 << (shift - 128);
+                hi = if kind == 9 { hi.saturating_add(ulp) } else { hi.saturating_sub(ulp) };
+            }
+        }
+        11 => hi <<= 4,
+        // far below the parent (start states well below the chain maximum)
+        12 => hi >>= 5,
+        13 => hi >>= 6,
+        14 => hi >>= 8,
+        _ => hi >>= 10,
     }
     b[0..16].copy_from_slice(&hi.to_be_bytes());
     Target::from_be_bytes(b).to_compact_lossy()
@@ -848,7 +871,8 @@ impl Case {
             _ => compact_proof(&block, &all_txids, &[]),
         };
         let mode = match fl {
-            Flavour::Valid | Flavour::ValidStreamed => Attest::Quorum,
+            // other bits with an otherwise correct proof: the difficulty rule alone decides
+            Flavour::Valid | Flavour::ValidStreamed | Flavour::OtherBits(_) => Attest::Quorum,
             Flavour::RepeatedAttestation => Attest::RepeatedBelowQuorum,
             _ => *rng.pick(&[Attest::Quorum, Attest::Quorum, Attest::Random, Attest::RepeatedBelowQuorum]),
         };
@@ -1065,6 +1089,15 @@ impl Case {
         let mut o = self.finish_step(coq_req, what, code, &pre, Some((valid, why)), expected_ok);
         if exp_height % 2016 == 0 {
             o.tags.push(format!("add at a retarget height, bits {}: {}", if b.header.bits == tip.0.bits { "equal" } else { "changed" }, code_name(code)));
+            let (p, t) = (Target::from_compact(tip.0.bits), Target::from_compact(b.header.bits));
+            let chain_max = self.network.params().max_attainable_target;
+            if t > p.max_transition_threshold_unchecked() && t <= chain_max {
+                o.tags.push(format!("add at a retarget height easing by more than 4 below the chain maximum: {}", code_name(code)));
+            } else if t < p.min_transition_threshold() {
+                o.tags.push(format!("add at a retarget height tightening by more than 4: {}", code_name(code)));
+            } else if t != p && t <= chain_max {
+                o.tags.push(format!("add at a retarget height within the factor-4 window: {}", code_name(code)));
+            }
         } else if b.header.bits != tip.0.bits {
             o.tags.push(format!("add off the retarget height with other bits ({:?}): {}", self.network, code_name(code)));
         }
@@ -1232,6 +1265,8 @@ struct Start {
     window: usize,
     height: u32,
     tip_bits_kind: Option<u8>,
+    /// bits of the tip's parent relative to the pool's regtest bits ([shifted_bits] kind)
+    prev_bits_kind: Option<u8>,
     tip_fh_zero: bool,
     prev_fh_zero: bool,
     listeners: Vec<bool>,
@@ -1263,14 +1298,27 @@ fn new_case_on(fx: &Fixture, st: &Start, salt0: u32, via_handler: bool) -> Case 
     let nwin = st.window;
     let w = st.window + BASE;
     let mut chain: Vec<(Block, FilterHeader)> = fx.pool[0..=w].to_vec();
+    if let Some(k) = st.prev_bits_kind {
+        // the parent of the tip gets a target far below the chain maximum (a restored tracker is
+        // not re-validated), so that a retarget has room to ease by more than a factor 4
+        let (pp, pp_fh) = chain[w - 2].clone();
+        let txs = vec![coinbase(800_000 + salt0)];
+        let header = mine(pp.block_hash(), merkle_root(&txs), shifted_bits(pp.header.bits, k), pp.header.time + 1, true);
+        let block = Block { header, txdata: txs };
+        let fh = filter_header_of(&block, &pp_fh);
+        chain[w - 1] = (block, fh);
+    }
     if st.prev_fh_zero {
         chain[w - 1].1 = FilterHeader::all_zeros();
     }
-    if let Some(k) = st.tip_bits_kind {
+    if st.tip_bits_kind.is_some() || st.prev_bits_kind.is_some() {
         if w > 0 {
             let (prev, prev_fh) = chain[w - 1].clone();
             let txs = vec![coinbase(900_000 + salt0)];
-            let bits = shifted_bits(prev.header.bits, k);
+            let bits = match st.tip_bits_kind {
+                Some(k) => shifted_bits(prev.header.bits, k),
+                None => prev.header.bits,
+            };
             let header = mine(prev.block_hash(), merkle_root(&txs), bits, prev.header.time + 1, true);
             let block = Block { header, txdata: txs };
             let fh = filter_header_of(&block, &prev_fh);
@@ -1380,6 +1428,23 @@ fn gen_start(rng: &mut Rng, max_window: usize) -> Start {
         9 => 2014,
         _ => window as u32 + rng.below(50) as u32,
     };
+    // a share of the cases sits right at a retarget with targets far below the chain maximum: the
+    // tip (or, for removals of a first-of-period block, its parent) is 2^5..2^10 below it, and the
+    // tip of a height-k*2016 start is eased / tightened against its parent by up to 16 / 8
+    let mut tip_bits_kind = if rng.chance(1, 3) { Some(*rng.pick(&[0u8, 1, 1, 2])) } else { None };
+    let mut prev_bits_kind = None;
+    let mut height = height;
+    if rng.chance(1, 5) {
+        let k = 1 + rng.below(3) as u32;
+        if rng.chance(2, 3) {
+            height = k * 2016 - 1; // the next block is the first of a period
+            tip_bits_kind = Some(*rng.pick(&[12u8, 13, 14, 15]));
+        } else {
+            height = k * 2016; // the tip is the first of a period
+            prev_bits_kind = Some(*rng.pick(&[12u8, 13, 14, 15]));
+            tip_bits_kind = Some(*rng.pick(&[4u8, 4, 5, 9, 1, 2, 10, 11, 3, 0]));
+        }
+    }
     // default filter, plain warn rule, and filters where an earlier rule shadows a later one
     let filter = *rng.pick(&[0u8, 0, 0, 0, 0, 1, 1, 2, 2, 2, 3, 3, 3, 4, 4, 5]);
     let ntrusted = *rng.pick(&[0usize, 1, 1, 2, 2, 3, 3, 3, 4, 4, 5, 5]);
@@ -1405,7 +1470,8 @@ fn gen_start(rng: &mut Rng, max_window: usize) -> Start {
         allow_deep: rng.chance(1, 4),
         window,
         height,
-        tip_bits_kind: if rng.chance(1, 3) { Some(*rng.pick(&[0u8, 1, 1, 2])) } else { None },
+        tip_bits_kind,
+        prev_bits_kind,
         tip_fh_zero: rng.chance(1, 7),
         prev_fh_zero: rng.chance(1, 8),
         listeners,
@@ -1508,7 +1574,10 @@ fn run_case(fx: &Fixture, rng: &mut Rng, id: usize, stats: &mut BTreeMap<String,
                 outs.push(case.do_remove(fx, &prev, &proof, &tip_block, format!("remove[{}]", flavour_name(fl))));
             }
         } else {
-            let fl = if force_valid || (via_handler && rng.chance(3, 4)) {
+            let fl = if !force_valid && at_boundary(&case) && rng.chance(1, 2) {
+                // the first block of a period: every side of the factor-4 window and of the chain maximum
+                Flavour::OtherBits(*rng.pick(&[0u8, 1, 1, 2, 2, 3, 4, 4, 5, 5, 6, 7, 9, 9, 10, 10, 11]))
+            } else if force_valid || (via_handler && rng.chance(3, 4)) {
                 if rng.chance(1, 3) {
                     Flavour::ValidStreamed
                 } else if via_handler && rng.chance(1, 4) {
@@ -1520,7 +1589,7 @@ fn run_case(fx: &Fixture, rng: &mut Rng, id: usize, stats: &mut BTreeMap<String,
                 match rng.below(40) {
                     0 | 1 => Flavour::WrongPrev,
                     2 | 3 => Flavour::BadPow,
-                    4 | 5 | 6 => Flavour::OtherBits(rng.below(9) as u8),
+                    4 | 5 | 6 => Flavour::OtherBits(rng.below(12) as u8),
                     7 | 8 => Flavour::ProofOtherBlock,
                     9 | 10 => Flavour::ProofMissingSpend,
                     26 | 27 | 28 => Flavour::RepeatedAttestation,
@@ -1536,7 +1605,7 @@ fn run_case(fx: &Fixture, rng: &mut Rng, id: usize, stats: &mut BTreeMap<String,
                     20..=25 => Flavour::ValidStreamed,
                     _ => {
                         if at_boundary(&case) && rng.chance(1, 2) {
-                            Flavour::OtherBits(rng.below(9) as u8)
+                            Flavour::OtherBits(*rng.pick(&[0u8, 1, 2, 3, 4, 4, 5, 5, 6, 7, 8, 9, 9, 10, 11]))
                         } else {
                             Flavour::Valid
                         }
@@ -1667,7 +1736,7 @@ fn run_case(fx: &Fixture, rng: &mut Rng, id: usize, stats: &mut BTreeMap<String,
     json!({
         "id": id, "kind": if via_handler { "handler" } else { "seq" },
         "start": {"network": format!("{:?}", st.network), "trusted": st.trusted, "warn": st.warn, "policy_filter": policy_filter(st.filter).2, "allow_deep": st.allow_deep,
-                  "window": st.window, "height": st.height, "tip_bits_kind": st.tip_bits_kind, "tip_filter_header_zero": st.tip_fh_zero, "prev_filter_header_zero": st.prev_fh_zero,
+                  "window": st.window, "height": st.height, "tip_bits_kind": st.tip_bits_kind, "prev_bits_kind": st.prev_bits_kind, "tip_filter_header_zero": st.tip_fh_zero, "prev_filter_header_zero": st.prev_fh_zero,
                   "listeners": st.listeners},
         "ops": jops,
         "nontrivial": kinds.0 && kinds.1 && kinds.2,
@@ -1717,7 +1786,7 @@ fn scripted(_args: &Args) {
     // (1) refused removal, then the correct removal
     {
         let st = Start { network: Network::Regtest, trusted: vec![0], warn: false, filter: 0, allow_deep: false, window: 4, height: 4,
-                         tip_bits_kind: None, tip_fh_zero: false, prev_fh_zero: false, listeners: vec![true, false] };
+                         tip_bits_kind: None, prev_bits_kind: None, tip_fh_zero: false, prev_fh_zero: false, listeners: vec![true, false] };
         let mut case = new_case(&fx, &st, 7001);
         let coq_cfg = case.coq_cfg(&fx);
         let coq_init = case.coq_state();
@@ -1735,7 +1804,7 @@ fn scripted(_args: &Args) {
     // (2) refused streamed block, then a correct streamed block
     {
         let st = Start { network: Network::Regtest, trusted: vec![0], warn: false, filter: 0, allow_deep: false, window: 2, height: 2,
-                         tip_bits_kind: None, tip_fh_zero: false, prev_fh_zero: false, listeners: vec![true, false] };
+                         tip_bits_kind: None, prev_bits_kind: None, tip_fh_zero: false, prev_fh_zero: false, listeners: vec![true, false] };
         let mut case = new_case(&fx, &st, 7002);
         let coq_cfg = case.coq_cfg(&fx);
         let coq_init = case.coq_state();
@@ -1776,7 +1845,7 @@ fn scripted(_args: &Args) {
     // as many attestations with a trusted key as the quorum asks for, but one oracle only
     {
         let st = Start { network: Network::Regtest, trusted: vec![0, 1, 2], warn: false, filter: 0, allow_deep: false, window: 2, height: 11,
-                         tip_bits_kind: None, tip_fh_zero: false, prev_fh_zero: false, listeners: vec![true, false] };
+                         tip_bits_kind: None, prev_bits_kind: None, tip_fh_zero: false, prev_fh_zero: false, listeners: vec![true, false] };
         let mut case = new_case(&fx, &st, 7005);
         let coq_cfg = case.coq_cfg(&fx);
         let coq_init = case.coq_state();
@@ -1819,7 +1888,7 @@ fn scripted(_args: &Args) {
     // filter; with the warn rule FIRST the same block is accepted
     for (kind, name) in [(2u8, "shadowed-permissive-filter-prefix"), (3u8, "shadowed-permissive-filter-exact-tag"), (4u8, "warn-rule-ahead-of-error-rule")] {
         let st = Start { network: Network::Regtest, trusted: vec![0, 1], warn: policy_filter(kind).1, filter: kind, allow_deep: false, window: 2, height: 21,
-                         tip_bits_kind: None, tip_fh_zero: false, prev_fh_zero: false, listeners: vec![true, false] };
+                         tip_bits_kind: None, prev_bits_kind: None, tip_fh_zero: false, prev_fh_zero: false, listeners: vec![true, false] };
         let mut case = new_case(&fx, &st, 7010 + kind as u32);
         let coq_cfg = case.coq_cfg(&fx);
         let coq_init = case.coq_state();
@@ -1848,12 +1917,63 @@ fn scripted(_args: &Args) {
             "invalid_accepted": outs.iter().filter_map(|o| o.invalid_accepted.clone()).collect::<Vec<_>>(),
             "coq": coq}));
     }
+    // (2e) the first block of a difficulty period on top of a tip whose target is 2^8 below the
+    // chain maximum: x8, x4 + 1 ulp, /8, /4 - 1 ulp are refused (InvalidChain, nothing moves), x16
+    // too, x4 is accepted; removing it again is accepted, /4 is accepted
+    {
+        let st = Start { network: Network::Regtest, trusted: vec![0], warn: false, filter: 0, allow_deep: false, window: 2, height: 2 * 2016 - 1,
+                         tip_bits_kind: Some(14), prev_bits_kind: None, tip_fh_zero: false, prev_fh_zero: false, listeners: vec![true, false] };
+        let mut case = new_case(&fx, &st, 7020);
+        let coq_cfg = case.coq_cfg(&fx);
+        let coq_init = case.coq_state();
+        let mut outs = vec![];
+        for (k, name) in [(5u8, "x8"), (9, "x4 + 1 ulp"), (11, "x16"), (2, "/8"), (10, "/4 - 1 ulp"), (4, "x4")] {
+            let (b, ch) = case.build_add(&fx, &mut rng, Flavour::OtherBits(k));
+            outs.push(case.do_add(&fx, &b, ch, format!("add[first block of a period, target {} of the previous one]", name)));
+        }
+        let (prev, good, tip_block) = case.build_remove(&fx, &mut rng, Flavour::Valid).unwrap();
+        outs.push(case.do_remove(&fx, &prev, &good, &tip_block, "remove[Valid] (the x4 block)".into()));
+        let (b, ch) = case.build_add(&fx, &mut rng, Flavour::OtherBits(1));
+        outs.push(case.do_add(&fx, &b, ch, "add[first block of a period, target /4 of the previous one]".into()));
+        let expected = [1u64, 1, 1, 1, 1, 0, 0, 0];
+        let later: Vec<Value> = outs.iter().zip(expected.iter()).filter(|(o, e)| **e == 0 && o.code != 0)
+            .map(|(o, _)| json!({"after_a_refused_request_the_correct_request": o.what, "result": code_name(o.code)})).collect();
+        let coq = format!("({}, {}, {}, {})", coq_cfg, coq_init,
+            coq_list(&outs.iter().map(|o| o.coq_req.clone()).collect::<Vec<_>>()),
+            coq_list(&outs.iter().map(|o| o.coq_obs.clone()).collect::<Vec<_>>()));
+        emit("CASE", json!({"id": "retarget-window-far-below-the-chain-maximum", "kind": "scripted",
+            "ops": outs.iter().map(|o| json!([o.what, code_name(o.code)])).collect::<Vec<_>>(),
+            "atomicity_violations": outs.iter().filter_map(|o| o.atomic_violation.clone()).collect::<Vec<_>>(),
+            "later_request_violations": later,
+            "invalid_accepted": outs.iter().filter_map(|o| o.invalid_accepted.clone()).collect::<Vec<_>>(),
+            "coq": coq}));
+    }
+    // (2f) a restored tracker whose tip is the first block of a period and eases x8 against its
+    // parent (2^8 below the chain maximum): the removal re-validates the tip and is refused
+    {
+        let st = Start { network: Network::Regtest, trusted: vec![0], warn: false, filter: 0, allow_deep: false, window: 2, height: 2016,
+                         tip_bits_kind: Some(5), prev_bits_kind: Some(14), tip_fh_zero: false, prev_fh_zero: false, listeners: vec![false, false] };
+        let mut case = new_case(&fx, &st, 7021);
+        let coq_cfg = case.coq_cfg(&fx);
+        let coq_init = case.coq_state();
+        let (prev, good, tip_block) = case.build_remove(&fx, &mut rng, Flavour::Valid).unwrap();
+        let outs = [case.do_remove(&fx, &prev, &good, &tip_block, "remove[first block of a period with target x8 of its parent]".into())];
+        let coq = format!("({}, {}, {}, {})", coq_cfg, coq_init,
+            coq_list(&outs.iter().map(|o| o.coq_req.clone()).collect::<Vec<_>>()),
+            coq_list(&outs.iter().map(|o| o.coq_obs.clone()).collect::<Vec<_>>()));
+        emit("CASE", json!({"id": "removal-of-a-block-that-eased-by-8", "kind": "scripted",
+            "ops": outs.iter().map(|o| json!([o.what, code_name(o.code)])).collect::<Vec<_>>(),
+            "atomicity_violations": outs.iter().filter_map(|o| o.atomic_violation.clone()).collect::<Vec<_>>(),
+            "later_request_violations": [],
+            "invalid_accepted": outs.iter().filter_map(|o| o.invalid_accepted.clone()).collect::<Vec<_>>(),
+            "coq": coq}));
+    }
     // (2c) a signer on Testnet (compiled-in checkpoints) whose tracker followed blocks up to a
     // height below the latest checkpoint restarts from its store: nothing moves, the next
     // correct block is accepted
     {
         let st = Start { network: Network::Testnet, trusted: vec![0], warn: false, filter: 0, allow_deep: true, window: 2, height: 5,
-                         tip_bits_kind: None, tip_fh_zero: false, prev_fh_zero: false, listeners: vec![true, false] };
+                         tip_bits_kind: None, prev_bits_kind: None, tip_fh_zero: false, prev_fh_zero: false, listeners: vec![true, false] };
         let mut case = new_case_on(&fx, &st, 7006, true);
         case.last_store = case.stored_entry();
         let coq_cfg = case.coq_cfg(&fx);
@@ -1881,7 +2001,7 @@ fn scripted(_args: &Args) {
     // remove_block compares the streamed block's hash with the hash of the PREVIOUS header
     {
         let st = Start { network: Network::Regtest, trusted: vec![0], warn: false, filter: 0, allow_deep: false, window: 3, height: 7,
-                         tip_bits_kind: None, tip_fh_zero: false, prev_fh_zero: false, listeners: vec![true, false] };
+                         tip_bits_kind: None, prev_bits_kind: None, tip_fh_zero: false, prev_fh_zero: false, listeners: vec![true, false] };
         let mut case = new_case(&fx, &st, 7003);
         let coq_cfg = case.coq_cfg(&fx);
         let coq_init = case.coq_state();
@@ -1905,7 +2025,7 @@ fn scripted(_args: &Args) {
     // BlockDecoder::finish (merkle root assertion), not Err(BlockDecodeError)
     {
         let st = Start { network: Network::Regtest, trusted: vec![0], warn: false, filter: 0, allow_deep: false, window: 2, height: 9,
-                         tip_bits_kind: None, tip_fh_zero: false, prev_fh_zero: false, listeners: vec![false, false] };
+                         tip_bits_kind: None, prev_bits_kind: None, tip_fh_zero: false, prev_fh_zero: false, listeners: vec![false, false] };
         let mut case = new_case(&fx, &st, 7004);
         let coq_cfg = case.coq_cfg(&fx);
         let coq_init = case.coq_state();
